@@ -130,7 +130,7 @@ def _q4b(kind, cmd, tracked):
             abst.add_tracked_job(w, "Ok", "55" if be != "local" else 55, "running")
         w.install()
     try:
-        before = w.vfs.snapshot()
+        before = w.view()
         raised = None
         try:
             if cmd == 0:
@@ -154,7 +154,7 @@ def _q4b(kind, cmd, tracked):
         want = {"multi": "FileProvidedByMultipleTargetsError", "unres": "UnresolvedInputError"}.get(ILL[kind], "CircularDependencyError")
         if raised != want:
             return "command %d failed with %s, the defect is %s" % (cmd, raised, ILL[kind])
-        after = w.vfs.snapshot()
+        after = w.view()
         if after != before:
             changed = sorted(set(k for k in set(before) | set(after) if before.get(k) != after.get(k)))
             return "command %d on an ill-formed workflow changed files: %s" % (cmd, changed)
